@@ -117,6 +117,10 @@ def expand(ops):
                 c['zero_arity_ops'] = c.get('zero_arity_ops', 0) + 1
             if via == 'assert_fact':
                 hist.append(('assert_fact', t, where == 'z'))
+            elif via == 'api_stmt':
+                # yp.assertz(t) / yp.asserta(t) as a plain statement of the host program
+                hist.append(('api', name, t))
+                c['api_statements'] = c.get('api_statements', 0) + 1
             elif via == 'api_query':
                 hist.append(('run', name, [t], None))
             elif via == 'compiled':
@@ -139,7 +143,10 @@ def expand(ops):
                 c['retract_abandoned'] = c.get('retract_abandoned', 0) + 1
             from ..terms import term_vars
             pv = [v for v in term_vars(pat) if v[1] != '_']
-            if via == 'api_query':
+            if via == 'api_stmt':
+                hist.append(('api', k, pat))
+                c['api_statements'] = c.get('api_statements', 0) + 1
+            elif via == 'api_query':
                 hist.append(('run', k, [pat], lim))
             elif via == 'compiled':
                 head = C('op%d' % i, *pv) if pv else A('op%d' % i)
@@ -180,13 +187,13 @@ def gen_ops(rng):
         key = rng.choice(keys)
         r = rng.random()
         if r < 0.42:
-            ops.append(('assert', rng.choice('az'), rng.choice(['assert_fact', 'api_query', 'compiled', 'compiled_var']),
+            ops.append(('assert', rng.choice('az'), rng.choice(['assert_fact', 'api_query', 'compiled', 'compiled_var', 'api_stmt']),
                         rand_fact(rng, key)))
         elif r < 0.62:
             ops.append(('retract', rng.choice(['api_query', 'compiled', 'compiled_var']), rand_pattern(rng, key, i),
                         rng.choice([None, None, 0, 1, 1, 2])))
         elif r < 0.72:
-            ops.append(('retractall', rng.choice(['api_query', 'compiled', 'compiled_var']), rand_pattern(rng, key, i)))
+            ops.append(('retractall', rng.choice(['api_query', 'compiled', 'compiled_var', 'api_stmt']), rand_pattern(rng, key, i)))
         elif r < 0.97:
             ops.append(('query', rand_pattern(rng, key, i)))
         else:
